@@ -474,7 +474,8 @@ class Expect:
             nroot = len(comps) if root is None else root
             parts = [list(enumerate(comps))[:nroot], list(enumerate(comps))[nroot:]]
             if k == "set":
-                parts = [sorted(part, key=self.sort_key(comps)) for part in parts]
+                # X.691 21.1: only the root components are sorted, the additions stay as written
+                parts = [sorted(parts[0], key=self.sort_key(comps)), parts[1]]
             fields, std_opt = [], 0
             for pi, part in enumerate(parts):
                 for _, c in part:
@@ -644,7 +645,7 @@ class ToLean:
             nroot = len(comps) if root is None else root
             parts = [comps[:nroot], comps[nroot:]]
             if k == "set":
-                parts = [sorted(part, key=self.x.sort_key(ty["comps"])) for part in parts]
+                parts = [sorted(parts[0], key=self.x.sort_key(ty["comps"])), parts[1]]
 
             def cl(l):
                 out = ".nil"
